@@ -303,6 +303,54 @@ pub fn run(ctx: &mut Ctx) {
         }
         ctx.bounds.insert("document_sweep".into(), json!(format!("{} documents (every C02 world with at most one deviation)", ws.len())));
     }
+    // documents with a character that text handling likes to treat specially (byte-order mark, other line ends,
+    // invisible, replacement, control and supplementary-plane characters, characters whose case mapping changes their
+    // length) as the first character, twice, as the last one, alone, after the first word and inside a comment, of a
+    // valid and of a faulty text: the same history
+    {
+        let specials = [
+            "\u{FEFF}", "\u{A0}", "\u{85}", "\u{2028}", "\u{2029}", "\u{200B}", "\u{FFFD}", "\u{B}", "\u{C}", "\u{1A}", "\u{7F}", "\u{1}", "\u{0}", "\u{1F600}", "\u{10400}", "\u{fb01}", "\u{131}", "\u{130}",
+            "\u{e9}", "\u{20ac}", "\r", "\t",
+        ];
+        let mut docs: Vec<(String, String)> = vec![];
+        for sp in specials {
+            let code = format!("U+{:04X}", sp.chars().next().unwrap() as u32);
+            for (bname, base) in [("valid", V), ("faulty", X)] {
+                docs.push((format!("{}/first/{}", code, bname), format!("{}{}", sp, base)));
+                docs.push((format!("{}/first-twice/{}", code, bname), format!("{}{}{}", sp, sp, base)));
+                docs.push((format!("{}/last/{}", code, bname), format!("{}{}", base, sp)));
+                docs.push((format!("{}/after-the-first-word/{}", code, bname), base.replacen(' ', &format!("{} ", sp), 1)));
+                docs.push((format!("{}/in-a-comment-first/{}", code, bname), format!("(*{}*){}", sp, base)));
+                docs.push((format!("{}/in-a-comment-before-a-lexeme/{}", code, bname), base.replacen(' ', &format!(" (* {} *) ", sp), 2)));
+            }
+            docs.push((format!("{}/alone", code), sp.to_string()));
+            docs.push((format!("{}/alone-thrice", code), sp.repeat(3)));
+        }
+        let res: Vec<Option<String>> = docs
+            .par_iter()
+            .map(|(_, text)| {
+                let alpha2 = vec![
+                    Spec { name: "didOpen(a,document)", msg: did_open(A, 1, text), expect: Expect::Silent },
+                    Spec { name: "semanticTokens(a)", msg: tokens_req(0, A), expect: Expect::Answer },
+                    Spec { name: "didChange(a,[document])", msg: did_change(A, 2, &[text.as_str()]), expect: Expect::Silent },
+                    Spec { name: "didOpen(b,V)", msg: did_open(B, 1, V), expect: Expect::Silent },
+                    Spec { name: "semanticTokens(b)", msg: tokens_req(0, B), expect: Expect::Answer },
+                ];
+                let r = run_history(&alpha2, &[0, 1, 2, 1, 3, 4, 1], Box::new(MemSrv::new(Some(vec![0, 1]))));
+                r.failures.first().map(|(k, wh)| format!("{} :: {}", k, wh))
+            })
+            .collect();
+        for ((name, text), r) in docs.iter().zip(res.iter()) {
+            count += 1;
+            ctx.distinct(&format!("special|{}", name));
+            if let Some(m) = r {
+                let key = m.split(" :: ").next().unwrap_or("failure").split('/').next().unwrap_or("failure").to_string();
+                let place = name.split('/').nth(1).unwrap_or("");
+                ctx.fail(&format!("special-character-document/{}/{}", key, place), &format!("[{}] {}", name, m), json!({"mode":"document","text": text}));
+            }
+        }
+        ctx.bounds.insert("special_character_documents".into(), json!(docs.len()));
+    }
     // a client that runs ahead: every ordered pair of events, and every pair followed by each request, sent before
     // anything is read (the server finds them queued): every request is still answered exactly once and the server lives
     {
